@@ -28,7 +28,7 @@
 //#define QLZ_STREAMING_BUFFER 100000
 //#define QLZ_STREAMING_BUFFER 1000000
 
-//#define QLZ_MEMORY_SAFE
+#define QLZ_MEMORY_SAFE
 #endif
 
 #define QLZ_VERSION_MAJOR 1
